@@ -391,6 +391,16 @@ func (exp *SplitExp) resolveRefs(self, siblings map[string]*ResolvedBinding,
 				}
 			case MapCallSource:
 				src = rs
+			case *DisabledExp:
+				// The call which produces the collection has a disabled
+				// modifier.  The (now fully-qualified) reference is still
+				// the source; it resolves to null if the call is disabled.
+				if rs, ok := rs.Value.(*RefExp); ok {
+					src = &BoundReference{
+						Exp:  rs,
+						Type: s.Type,
+					}
+				}
 			}
 		}
 	}
